@@ -319,5 +319,7 @@ func main() {
 	for _, v := range []string{"dstAlignStart", "dstAlignEnd"} {
 		fmt.Fprintf(&b, "Definition nsclone_%s %s : N := %s.\n", v, nparams, exprToCoq(findAssign(nc, v, 0), nil))
 	}
+	// --- C05: FileMode/st_mode bits, mkdev and the rdev split (tools/genconst/c05.go) ---
+	genC05(&b)
 	os.Stdout.WriteString(b.String())
 }
